@@ -9,6 +9,14 @@ pub enum Tier {
     Thorough,
 }
 
+/// What the current case is doing (for the hang watchdog).
+pub static LAST_NOTE: std::sync::Mutex<String> = std::sync::Mutex::new(String::new());
+/// Index of the case currently running (u64::MAX - 1 = none).
+pub static CUR_INDEX: std::sync::atomic::AtomicU64 = std::sync::atomic::AtomicU64::new(u64::MAX - 1);
+
+/// Bumped by long-running deterministic work (sweeps) so that the watchdog sees progress.
+pub static HEARTBEAT: std::sync::atomic::AtomicU64 = std::sync::atomic::AtomicU64::new(0);
+
 pub struct Run {
     pub prop: &'static str,
     pub seed: u64,
@@ -18,6 +26,8 @@ pub struct Run {
     pub flavour: String,
     /// scale factor for sizes (miri uses a small one)
     pub small: bool,
+    /// --trace: print notes to stderr (used to identify hanging/aborting cases)
+    pub trace: bool,
     // ---- per case
     pub index: u64,
     case_hash: u64,
@@ -70,6 +80,7 @@ impl Run {
             tier,
             flavour,
             small,
+            trace: false,
             index: 0,
             case_hash: 0,
             case_nontrivial: false,
@@ -92,6 +103,7 @@ impl Run {
     }
 
     pub fn begin_case(&mut self, index: u64) {
+        CUR_INDEX.store(index, std::sync::atomic::Ordering::SeqCst);
         self.index = index;
         self.case_hash = 0xcbf2_9ce4_8422_2325;
         self.case_nontrivial = false;
@@ -125,6 +137,22 @@ impl Run {
         if self.samples.len() < 4 {
             self.case_desc = f();
         }
+    }
+
+    /// In trace mode, print what the case is about to do (so that a hang or abort can be
+    /// attributed to a concrete input).
+    pub fn note(&self, f: impl FnOnce() -> String) {
+        let s = f();
+        if self.trace {
+            eprintln!("# {}", s);
+        }
+        if let Ok(mut g) = LAST_NOTE.lock() {
+            *g = s;
+        }
+    }
+
+    pub fn heartbeat(&self) {
+        HEARTBEAT.fetch_add(1, std::sync::atomic::Ordering::Relaxed);
     }
 
     pub fn wants_description(&self) -> bool {
